@@ -150,13 +150,28 @@ def r11c(model, ctx):
 
 def r11d(model, ctx):
     R = "R-11d"
-    f = model.func(f"{LIBMEM}::Memory.elaborate")
-    t = unparse(f)
-    ok = "for port in self._write_ports:\n        write_ports[port] = instance.write_port(domain=port.domain, addr=port.addr, data=port.data, en=port.en)" in t
+    from ..engine.astutil import dict_contributions
+    f = model.func_view(f"{LIBMEM}::Memory.elaborate")
+    # the WritePort -> index map: one entry per port of self._write_ports, valued by what instance.write_port() returns for
+    # that port's own fields (a loop with `d[port] = ...` or a dict comprehension); the read ports translate
+    # transparent_for through that same map
+    maps = {}
+    for st in ast.walk(f):
+        if isinstance(st, ast.Assign) and len(st.targets) == 1 and isinstance(st.targets[0], ast.Name) and \
+                isinstance(st.value, (ast.Dict, ast.DictComp)):
+            maps[st.targets[0].id] = dict_contributions(f, st.targets[0].id)
+    WP = "instance.write_port(domain=port.domain, addr=port.addr, data=port.data, en=port.en)"
+    good = [d for d, c in maps.items() if {(it, tg, k, v) for it, tg, k, v in c} == {("self._write_ports", "port", "port", WP)}]
+    ok = len(good) == 1
     ctx.check(ok, R, "lib.Memory.elaborate:write-ports", "index returned by instance.write_port recorded per WritePort object",
               "each WritePort must be mapped to the index instance.write_port() returns for it, with its own domain/addr/data/en", f"{LIBMEM}:{f.lineno}")
-    ok = "transparent_for = tuple((write_ports[write_port] for write_port in port.transparent_for))" in t and \
-        "instance.read_port(domain=port.domain, data=port.data, addr=port.addr, en=port.en, transparent_for=transparent_for)" in t
+    d = good[0] if good else "write_ports"
+    rp = [n for n in ast.walk(f) if isinstance(n, ast.Call) and unparse(n.func) == "instance.read_port"]
+    ok = len(rp) == 1
+    if ok:
+        kw = {k.arg: unparse(k.value) for k in rp[0].keywords}
+        ok = kw == {"domain": "port.domain", "data": "port.data", "addr": "port.addr", "en": "port.en",
+                    "transparent_for": f"tuple(({d}[write_port] for write_port in port.transparent_for))"} and not rp[0].args
     ctx.check(ok, R, "lib.Memory.elaborate:read-ports", "transparent_for mapped through the same dict",
               "a read port's transparent_for must be translated through the WritePort -> index map and passed with the port's own fields",
               f"{LIBMEM}:{f.lineno}")
